@@ -89,12 +89,20 @@ RULE = (
     "operations, all single faults and recovery-path pairs, enumerated "
     "completely; mock: units with statements dropped/repeated/moved and "
     "syntax mutations through FakedWBEMConnection.compile_mof_string; "
-    "termination: a fixed list of inputs with super-linear risk.  "
+    "termination: a fixed list of inputs with super-linear risk; depreuse: "
+    "dependency forests of 2-5 classes resolved through the search path with "
+    "missing/broken/wrong files at step 1, repaired before step 2, same "
+    "compiler vs. new compiler on identically prepared repositories (strict "
+    "stub or FakedWBEMConnection as handle).  The rendered text of strings/"
+    "mock cases gets LF, CR-LF (optionally with added blank lines), mixed or "
+    "bare-CR line ends; for text with CR the error position is compared "
+    "with that of the same text with CR replaced by blank.  "
     "Non-trivial = the input has >= 5 tokens and is 1-2 mutations away from "
     "a unit that compiles (strings, files, mock), or has >= 5 tokens (text "
     "cases of strings), "
     "or literal kind differs from the declared type (typed), or a fault at "
-    "call k >= 2 or more than one fault (repofault).  Distinct = distinct "
+    "call k >= 2 or more than one fault (repofault), or step 1 failed and "
+    "step 2 succeeds on a new compiler (depreuse).  Distinct = distinct "
     "generated example.")
 ASSUMPTIONS = [
     "CR is in the lexer's t_ignore and is no line end: replacing every CR "
